@@ -1,8 +1,1410 @@
-//! C19 — monitor not built yet.
+//! C19 — secrets never reach frames, artifacts, caches, logs or diagnostics.
+//!
+//! Black box on the real binary. Every configuration is a fresh `rip serve` with its own
+//! `RIP_CONFIG_HOME`, data dir and workspace, talking to a scripted provider that records request
+//! headers (so the monitor can prove the secret really was in use). A unique canary per supply
+//! path; after the run every byte the authority produced — data dir, workspace, every HTTP/SSE
+//! response, its stdout/stderr, the CLI's output — is searched for the canary in raw, JSON-escaped,
+//! percent-encoded, hex and base64 (all three alignments) form.
+
+use crate::c18::{http_exchange, http_json, kill_pid, rip_bin, HttpResp, Proc};
+use crate::fixture::scratch_root;
+use crate::prng::Rng;
+use crate::provider::{
+    ev_args_delta, ev_args_done, ev_completed, ev_created, ev_item_added, ev_item_done, ev_text_delta,
+    function_call_item, sse_done, sse_event, Provider, Recorded, Reply, Script,
+};
 use crate::report::{Cfg, Report};
+use serde_json::{json, Value};
+use std::collections::BTreeMap;
+use std::path::{Path, PathBuf};
+use std::process::Command;
+use std::sync::atomic::{AtomicU64, Ordering};
+use std::sync::{mpsc, Arc, Mutex};
+use std::time::{Duration, Instant};
+
+#[derive(Clone, Copy, Debug, PartialEq, Eq)]
+enum Supply {
+    GlobalInline,
+    GlobalJsoncInline,
+    CustomInline,
+    ProjectJsonInline,
+    ProjectJsoncInline,
+    GlobalEnvIndirect,
+    EnvRipKey,
+    EnvOpenAi,
+    EnvOpenRouter,
+    HeadersSecret,
+    RolesObject,
+    EndpointMatch,
+    LayeredOverride,
+    InvalidGlobalPlusEnv,
+}
+
+const SUPPLIES: &[Supply] = &[
+    Supply::GlobalInline,
+    Supply::GlobalJsoncInline,
+    Supply::CustomInline,
+    Supply::ProjectJsonInline,
+    Supply::ProjectJsoncInline,
+    Supply::GlobalEnvIndirect,
+    Supply::EnvRipKey,
+    Supply::EnvOpenAi,
+    Supply::EnvOpenRouter,
+    Supply::HeadersSecret,
+    Supply::RolesObject,
+    Supply::EndpointMatch,
+    Supply::LayeredOverride,
+    Supply::InvalidGlobalPlusEnv,
+];
+
+impl Supply {
+    fn name(&self) -> &'static str {
+        match self {
+            Supply::GlobalInline => "global_config_json_inline",
+            Supply::GlobalJsoncInline => "global_config_jsonc_inline",
+            Supply::CustomInline => "RIP_CONFIG_file_inline",
+            Supply::ProjectJsonInline => "project_rip_json_inline",
+            Supply::ProjectJsoncInline => "project_rip_jsonc_inline",
+            Supply::GlobalEnvIndirect => "global_config_env_indirection",
+            Supply::EnvRipKey => "env_RIP_OPENRESPONSES_API_KEY",
+            Supply::EnvOpenAi => "env_OPENAI_API_KEY_by_endpoint_heuristic",
+            Supply::EnvOpenRouter => "env_OPENROUTER_API_KEY_by_endpoint_heuristic",
+            Supply::HeadersSecret => "provider_headers_secret_value",
+            Supply::RolesObject => "roles_primary_object_route",
+            Supply::EndpointMatch => "provider_matched_by_request_endpoint",
+            Supply::LayeredOverride => "project_overrides_global_key",
+            Supply::InvalidGlobalPlusEnv => "invalid_global_config_plus_env_key",
+        }
+    }
+}
+
+#[derive(Clone, Copy, Debug, PartialEq, Eq)]
+enum Outcome {
+    SuccessTool,
+    ToolFailure,
+    Http401Echo,
+    Http500Echo,
+    Reset,
+    Refused,
+    InvalidRequest,
+}
+
+const OUTCOMES: &[Outcome] = &[
+    Outcome::SuccessTool,
+    Outcome::Http401Echo,
+    Outcome::Refused,
+    Outcome::ToolFailure,
+    Outcome::Http500Echo,
+    Outcome::Reset,
+    Outcome::InvalidRequest,
+];
+
+impl Outcome {
+    fn name(&self) -> &'static str {
+        match self {
+            Outcome::SuccessTool => "success_with_tool_call",
+            Outcome::ToolFailure => "tool_failure",
+            Outcome::Http401Echo => "http_401_echoing_request_body",
+            Outcome::Http500Echo => "http_500_echoing_request_body",
+            Outcome::Reset => "connection_reset_mid_stream",
+            Outcome::Refused => "connection_refused",
+            Outcome::InvalidRequest => "invalid_followup_request",
+        }
+    }
+}
+
+#[derive(Clone, Copy, Debug, PartialEq, Eq)]
+enum Dump {
+    Off,
+    On,
+    OnTiny,
+}
+
+#[derive(Clone, Debug)]
+struct Spec {
+    idx: u64,
+    supply: Supply,
+    outcome: Outcome,
+    dump: Dump,
+    overrides: u8, // 0 none, 1 model+flags, 2 followup message + stateless
+    session_entry: bool,
+    cli_run: bool,
+    cli_local: bool,
+    /// informational extra: the provider's 401 body quotes the Authorization header it received
+    echo_auth: bool,
+    /// no authority is started by the monitor: `rip run --provider …` starts its own and hands the key over
+    cli_spawn: bool,
+    seed: u64,
+}
+
+impl Spec {
+    fn shape(&self) -> String {
+        if self.cli_spawn {
+            return format!("cli_provider_flag_spawns_authority|dns_failure|dump={:?}", self.dump);
+        }
+        format!(
+            "{}|{}|dump={:?}|ovr={}|{}|cli_run={}|cli_local={}",
+            self.supply.name(),
+            self.outcome.name(),
+            self.dump,
+            self.overrides,
+            if self.session_entry { "session" } else { "thread" },
+            self.cli_run,
+            self.cli_local
+        )
+    }
+}
+
+// ---------------------------------------------------------------------------------------------
+// canaries and the scanner
+
+#[derive(Clone, Debug)]
+struct Canary {
+    label: &'static str,
+    value: String,
+    needles: Vec<(&'static str, Vec<u8>)>,
+}
+
+const B64_STD: &[u8; 64] = b"ABCDEFGHIJKLMNOPQRSTUVWXYZabcdefghijklmnopqrstuvwxyz0123456789+/";
+const B64_URL: &[u8; 64] = b"ABCDEFGHIJKLMNOPQRSTUVWXYZabcdefghijklmnopqrstuvwxyz0123456789-_";
+
+fn b64(bytes: &[u8], table: &[u8; 64]) -> String {
+    let mut out = String::new();
+    let mut i = 0;
+    while i + 3 <= bytes.len() {
+        let n = ((bytes[i] as u32) << 16) | ((bytes[i + 1] as u32) << 8) | bytes[i + 2] as u32;
+        for s in [18, 12, 6, 0] {
+            out.push(table[((n >> s) & 63) as usize] as char);
+        }
+        i += 3;
+    }
+    match bytes.len() - i {
+        1 => {
+            let n = (bytes[i] as u32) << 16;
+            out.push(table[((n >> 18) & 63) as usize] as char);
+            out.push(table[((n >> 12) & 63) as usize] as char);
+        }
+        2 => {
+            let n = ((bytes[i] as u32) << 16) | ((bytes[i + 1] as u32) << 8);
+            out.push(table[((n >> 18) & 63) as usize] as char);
+            out.push(table[((n >> 12) & 63) as usize] as char);
+            out.push(table[((n >> 6) & 63) as usize] as char);
+        }
+        _ => {}
+    }
+    out
+}
+
+fn percent_encode(s: &str, upper: bool) -> String {
+    let mut out = String::new();
+    for b in s.bytes() {
+        if b.is_ascii_alphanumeric() || matches!(b, b'-' | b'_' | b'.' | b'~') {
+            out.push(b as char);
+        } else if upper {
+            out.push_str(&format!("%{b:02X}"));
+        } else {
+            out.push_str(&format!("%{b:02x}"));
+        }
+    }
+    out
+}
+
+impl Canary {
+    /// `rvK-<label>-<16 hex>+/=<8 hex>"q\`: the tail makes JSON-escaping and percent-encoding visible
+    fn new(label: &'static str, rng: &mut Rng, awkward: bool) -> Canary {
+        let core = rng.hex(16);
+        let tail = rng.hex(8);
+        let value = if awkward {
+            format!("rvK-{label}-{core}+/={tail}\"q\\z")
+        } else {
+            format!("rvK-{label}-{core}+/={tail}")
+        };
+        let mut needles: Vec<(&'static str, Vec<u8>)> = Vec::new();
+        needles.push(("raw", value.as_bytes().to_vec()));
+        needles.push(("core", core.as_bytes().to_vec()));
+        needles.push(("tail", format!("={tail}").into_bytes()));
+        let esc = serde_json::to_string(&value).unwrap_or_default();
+        let esc = esc.trim_matches('"').to_string();
+        if esc != value {
+            needles.push(("json_escaped", esc.clone().into_bytes()));
+            // escaped twice (a JSON string inside a JSON string)
+            let esc2 = serde_json::to_string(&esc).unwrap_or_default();
+            needles.push(("json_escaped_twice", esc2.trim_matches('"').as_bytes().to_vec()));
+        }
+        for upper in [true, false] {
+            let p = percent_encode(&value, upper);
+            if p != value {
+                needles.push(("percent_encoded", p.into_bytes()));
+            }
+        }
+        needles.push(("hex", hex::encode(value.as_bytes()).into_bytes()));
+        needles.push(("hex_upper", hex::encode_upper(value.as_bytes()).into_bytes()));
+        needles.push(("hex_of_core", hex::encode(core.as_bytes()).into_bytes()));
+        // base64 at the three alignments: drop the characters that depend on neighbouring bytes
+        for (kind, table) in [("base64", B64_STD), ("base64url", B64_URL)] {
+            for shift in 0..3usize {
+                let mut padded = vec![0u8; shift];
+                padded.extend_from_slice(value.as_bytes());
+                let enc = b64(&padded, table);
+                let skip = if shift == 0 { 0 } else { 4 };
+                let usable = enc.len() - (enc.len() % 4);
+                let end = usable.saturating_sub(4).max(skip);
+                let corepart = &enc[skip..end.max(skip)];
+                if corepart.len() >= 16 {
+                    needles.push((kind, corepart.as_bytes().to_vec()));
+                }
+            }
+        }
+        Canary { label, value, needles }
+    }
+}
+
+fn find(hay: &[u8], needle: &[u8]) -> Option<usize> {
+    if needle.is_empty() || hay.len() < needle.len() {
+        return None;
+    }
+    let first = needle[0];
+    let last = hay.len() - needle.len();
+    let mut i = 0;
+    while i <= last {
+        match hay[i..=last].iter().position(|b| *b == first) {
+            None => return None,
+            Some(p) => {
+                i += p;
+                if &hay[i..i + needle.len()] == needle {
+                    return Some(i);
+                }
+                i += 1;
+            }
+        }
+    }
+    None
+}
+
+#[derive(Clone, Debug)]
+struct Leak {
+    sink: String,
+    canary: &'static str,
+    encoding: &'static str,
+    excerpt: String,
+}
+
+struct Scanner<'a> {
+    canaries: &'a [Canary],
+    leaks: Vec<Leak>,
+    bytes: u64,
+    items: u64,
+}
+
+impl<'a> Scanner<'a> {
+    fn scan(&mut self, sink: &str, hay: &[u8]) {
+        self.bytes += hay.len() as u64;
+        self.items += 1;
+        for c in self.canaries {
+            for (enc, n) in &c.needles {
+                if let Some(pos) = find(hay, n) {
+                    let a = pos.saturating_sub(60);
+                    let b = (pos + n.len() + 30).min(hay.len());
+                    // do not quote the secret itself in evidence
+                    let mut ex = String::from_utf8_lossy(&hay[a..pos]).to_string();
+                    ex.push_str("«CANARY»");
+                    ex.push_str(&String::from_utf8_lossy(&hay[pos + n.len()..b]));
+                    self.leaks.push(Leak { sink: sink.to_string(), canary: c.label, encoding: enc, excerpt: ex });
+                    break; // one hit per canary and sink is enough
+                }
+            }
+        }
+    }
+}
+
+/// file path -> sink class (random ids replaced)
+fn sink_class(rel: &str) -> String {
+    let mut out = Vec::new();
+    for seg in rel.split('/') {
+        let stem = seg.split('.').next().unwrap_or(seg);
+        let idlike = stem.len() >= 16 && stem.chars().all(|c| c.is_ascii_hexdigit() || c == '-');
+        if idlike {
+            out.push(seg.replacen(stem, "*", 1));
+        } else {
+            out.push(seg.to_string());
+        }
+    }
+    out.join("/")
+}
+
+fn walk(root: &Path, f: &mut dyn FnMut(&Path)) {
+    let Ok(rd) = std::fs::read_dir(root) else {
+        return;
+    };
+    for e in rd.flatten() {
+        let p = e.path();
+        match std::fs::symlink_metadata(&p) {
+            Ok(md) if md.is_dir() => walk(&p, f),
+            Ok(md) if md.is_file() => f(&p),
+            _ => {}
+        }
+    }
+}
+
+// ---------------------------------------------------------------------------------------------
+// provider scripts
+
+fn sse_tool_call(call_id: &str, name: &str, args: &str) -> Vec<u8> {
+    let item_id = "fc_rv1";
+    let item_in = function_call_item(Some(item_id), call_id, name, "", "in_progress");
+    let item_done = function_call_item(Some(item_id), call_id, name, args, "completed");
+    let mut s = String::new();
+    s.push_str(&sse_event(&ev_created(0, "resp_rv1")));
+    s.push_str(&sse_event(&ev_item_added(1, 0, item_in)));
+    s.push_str(&sse_event(&ev_args_delta(2, item_id, 0, args)));
+    s.push_str(&sse_event(&ev_args_done(3, item_id, 0, args)));
+    s.push_str(&sse_event(&ev_item_done(4, 0, item_done.clone())));
+    s.push_str(&sse_event(&ev_completed(5, "resp_rv1", json!([item_done]))));
+    s.push_str(&sse_done());
+    s.into_bytes()
+}
+
+fn sse_text(text: &str) -> Vec<u8> {
+    let mut s = String::new();
+    s.push_str(&sse_event(&ev_created(0, "resp_rv2")));
+    s.push_str(&sse_event(&ev_text_delta(1, "msg_rv1", text)));
+    s.push_str(&sse_event(&ev_completed(2, "resp_rv2", json!([]))));
+    s.push_str(&sse_done());
+    s.into_bytes()
+}
+
+fn provider_script(outcome: Outcome, echo_auth: bool) -> Script {
+    Arc::new(move |rec: &Recorded| {
+        if echo_auth {
+            let auth = rec.header("authorization").unwrap_or("").to_string();
+            let body = json!({"error": {"message": format!("Incorrect API key provided: {auth}"), "type": "invalid_request_error"}});
+            return Reply::status(401, serde_json::to_vec(&body).unwrap_or_default());
+        }
+        let first = rec.index % 2 == 0;
+        match outcome {
+            Outcome::SuccessTool => {
+                if first {
+                    Reply::sse(sse_tool_call("call_rv_ok", "write", r#"{"path":"out.txt","content":"hello from the tool"}"#))
+                } else {
+                    Reply::sse(sse_text("all done"))
+                }
+            }
+            Outcome::ToolFailure => {
+                if first {
+                    Reply::sse(sse_tool_call("call_rv_fail", "read", r#"{"path":"no/such/file.txt"}"#))
+                } else {
+                    Reply::sse(sse_text("the tool failed"))
+                }
+            }
+            Outcome::InvalidRequest => {
+                if first {
+                    // a call id longer than the 64 characters the request schema allows makes the
+                    // follow-up request invalid
+                    let long_id = format!("call_{}", "x".repeat(100));
+                    Reply::sse(sse_tool_call(&long_id, "write", r#"{"path":"out2.txt","content":"x"}"#))
+                } else {
+                    Reply::sse(sse_text("unexpected"))
+                }
+            }
+            Outcome::Http401Echo => {
+                let mut r = Reply::status(401, br#"{"error":{"message":"Incorrect API key provided","type":"invalid_request_error"},"your_request":"#.to_vec());
+                r.echo_request = true;
+                r
+            }
+            Outcome::Http500Echo => {
+                let mut r = Reply::status(500, b"internal error while processing request: ".to_vec());
+                r.content_type = "text/plain".to_string();
+                r.echo_request = true;
+                r
+            }
+            Outcome::Reset => {
+                let mut r = Reply::sse(sse_text("this stream is cut off in the middle of the second event"));
+                if rec.index % 3 == 2 {
+                    r.headers_only = true;
+                } else {
+                    r.reset_after = Some(700);
+                    r.chunks = vec![300, 300, 300];
+                }
+                r
+            }
+            Outcome::Refused => Reply::status(503, b"unreachable".to_vec()),
+        }
+    })
+}
+
+// ---------------------------------------------------------------------------------------------
+// one configuration
+
+#[derive(Default)]
+struct CaseResult {
+    idx: u64,
+    shape: String,
+    supply: &'static str,
+    outcome: &'static str,
+    inconclusive: Option<String>,
+    /// Some(true) = the provider received the canary; None = could not be observed (refused)
+    sent: Option<bool>,
+    provider_requests: u64,
+    leaks: Vec<Leak>,
+    doctor_problems: Vec<(String, String)>,
+    doctor_checked: bool,
+    doctor: Value,
+    frames: u64,
+    frame_types: BTreeMap<String, u64>,
+    bytes_scanned: u64,
+    items_scanned: u64,
+    files_scanned: u64,
+    http_responses: u64,
+    dump_frames: u64,
+    invalid_request_frames: u64,
+    tool_failures: u64,
+    outcome_reached: bool,
+    cli_runs: u64,
+    cli_exit_zero: u64,
+    cli_nonzero: Vec<String>,
+    scanner_selfcheck: bool,
+    echo_auth: bool,
+    echo_auth_persisted: bool,
+    exit_after_sigterm: Option<i32>,
+    wall_ms: u64,
+}
+
+struct Planted {
+    files: Vec<PathBuf>,
+    env: Vec<(String, String)>,
+    /// per-request endpoint override needed to reach the provider (EndpointMatch)
+    request_endpoint: Option<String>,
+    expect_source: Option<String>,
+    expect_headers: Vec<String>,
+    doctor_has_openresponses: bool,
+    /// which canary must show up at the provider, and in which header
+    sent_header: (&'static str, String),
+}
+
+static NEXT_CASE_DIR: AtomicU64 = AtomicU64::new(0);
+
+fn write_file(files: &mut Vec<PathBuf>, path: PathBuf, content: String) {
+    if let Some(p) = path.parent() {
+        let _ = std::fs::create_dir_all(p);
+    }
+    let _ = std::fs::write(&path, content);
+    files.push(path);
+}
+
+fn jsonc(v: &Value) -> String {
+    // comments, a comment that looks like a key, and trailing commas
+    let pretty = serde_json::to_string_pretty(v).unwrap_or_default();
+    let mut out = String::from("// rip config written by the C19 monitor\n/* \"api_key\": \"not-a-key\" */\n");
+    for line in pretty.lines() {
+        out.push_str(line);
+        if line.trim_end().ends_with('"') && !line.trim_end().ends_with(',') {
+            out.push(','); // trailing comma after the last string member
+        }
+        out.push_str(" // c\n");
+    }
+    out
+}
+
+#[allow(clippy::too_many_arguments)]
+fn plant(
+    spec: &Spec,
+    endpoint: &str,
+    cfg_home: &Path,
+    ws: &Path,
+    custom: &Path,
+    key: &Canary,
+    decoy: &Canary,
+    header: &Canary,
+) -> Planted {
+    let mut files = Vec::new();
+    let mut env: Vec<(String, String)> = Vec::new();
+    let mut request_endpoint = None;
+    let mut expect_headers: Vec<String> = Vec::new();
+    let mut doctor_has = true;
+    let mut sent_header = ("authorization", format!("Bearer {}", key.value));
+    let provider_cfg = |api_key: Value| json!({"endpoint": endpoint, "api_key": api_key});
+    let routed = |api_key: Value| json!({"model": "prov/m1", "provider": {"prov": provider_cfg(api_key)}});
+    let expect_source: Option<String> = match spec.supply {
+        Supply::GlobalInline => {
+            write_file(&mut files, cfg_home.join("config.json"), routed(json!(key.value)).to_string());
+            Some("inline".into())
+        }
+        Supply::GlobalJsoncInline => {
+            write_file(&mut files, cfg_home.join("config.jsonc"), jsonc(&routed(json!(key.value))));
+            Some("inline".into())
+        }
+        Supply::CustomInline => {
+            let p = custom.join("custom-rip-config.json");
+            write_file(&mut files, p.clone(), routed(json!(key.value)).to_string());
+            env.push(("RIP_CONFIG".into(), p.display().to_string()));
+            Some("inline".into())
+        }
+        Supply::ProjectJsonInline => {
+            write_file(&mut files, ws.join("rip.json"), routed(json!(key.value)).to_string());
+            Some("inline".into())
+        }
+        Supply::ProjectJsoncInline => {
+            write_file(&mut files, ws.join("rip.jsonc"), jsonc(&routed(json!(key.value))));
+            Some("inline".into())
+        }
+        Supply::GlobalEnvIndirect => {
+            write_file(&mut files, cfg_home.join("config.json"), routed(json!({"env": "RV_C19_PROVIDER_KEY"})).to_string());
+            env.push(("RV_C19_PROVIDER_KEY".into(), key.value.clone()));
+            Some("env:RV_C19_PROVIDER_KEY".into())
+        }
+        Supply::EnvRipKey => {
+            env.push(("RIP_OPENRESPONSES_ENDPOINT".into(), endpoint.to_string()));
+            env.push(("RIP_OPENRESPONSES_API_KEY".into(), key.value.clone()));
+            env.push(("RIP_OPENRESPONSES_MODEL".into(), "m-env".into()));
+            Some("env:RIP_OPENRESPONSES_API_KEY".into())
+        }
+        Supply::EnvOpenAi => {
+            env.push(("RIP_OPENRESPONSES_ENDPOINT".into(), endpoint.to_string()));
+            env.push(("OPENAI_API_KEY".into(), key.value.clone()));
+            env.push(("OPENROUTER_API_KEY".into(), decoy.value.clone()));
+            env.push(("RIP_OPENRESPONSES_MODEL".into(), "m-env".into()));
+            Some("env:OPENAI_API_KEY".into())
+        }
+        Supply::EnvOpenRouter => {
+            env.push(("RIP_OPENRESPONSES_ENDPOINT".into(), endpoint.to_string()));
+            env.push(("OPENROUTER_API_KEY".into(), key.value.clone()));
+            env.push(("OPENAI_API_KEY".into(), decoy.value.clone()));
+            env.push(("RIP_OPENRESPONSES_MODEL".into(), "m-env".into()));
+            Some("env:OPENROUTER_API_KEY".into())
+        }
+        Supply::HeadersSecret => {
+            let cfg = json!({"model": "prov/m1", "provider": {"prov": {
+                "endpoint": endpoint, "api_key": key.value,
+                "headers": {"X-Rv-Secret-Token": header.value, "X-Org": "plain-org"}}}});
+            write_file(&mut files, cfg_home.join("config.json"), cfg.to_string());
+            expect_headers = vec!["X-Org".into(), "X-Rv-Secret-Token".into()];
+            sent_header = ("x-rv-secret-token", header.value.clone());
+            Some("inline".into())
+        }
+        Supply::RolesObject => {
+            let cfg = json!({"roles": {"primary": {"provider": "prov", "model": "m1", "variant": "fast"}},
+                "provider": {"prov": provider_cfg(json!(key.value))}});
+            let p = custom.join("roles-config.json");
+            write_file(&mut files, p.clone(), cfg.to_string());
+            env.push(("RIP_CONFIG".into(), p.display().to_string()));
+            Some("inline".into())
+        }
+        Supply::EndpointMatch => {
+            let cfg = json!({"provider": {"prov": provider_cfg(json!(key.value))}});
+            write_file(&mut files, cfg_home.join("config.json"), cfg.to_string());
+            request_endpoint = Some(endpoint.to_string());
+            doctor_has = false; // nothing selects the provider until a request names the endpoint
+            None
+        }
+        Supply::LayeredOverride => {
+            write_file(&mut files, cfg_home.join("config.json"), routed(json!(decoy.value)).to_string());
+            write_file(&mut files, ws.join("rip.json"), json!({"provider": {"prov": {"api_key": key.value}}}).to_string());
+            Some("inline".into())
+        }
+        Supply::InvalidGlobalPlusEnv => {
+            // syntactically broken file that contains a key
+            let mut broken = routed(json!(decoy.value)).to_string();
+            broken.truncate(broken.len() - 2);
+            broken.push_str(" oops");
+            write_file(&mut files, cfg_home.join("config.json"), broken);
+            env.push(("RIP_OPENRESPONSES_ENDPOINT".into(), endpoint.to_string()));
+            env.push(("RIP_OPENRESPONSES_API_KEY".into(), key.value.clone()));
+            Some("env:RIP_OPENRESPONSES_API_KEY".into())
+        }
+    };
+    match spec.dump {
+        Dump::Off => {}
+        Dump::On => env.push(("RIP_OPENRESPONSES_DUMP_REQUEST".into(), "1".into())),
+        Dump::OnTiny => {
+            env.push(("RIP_OPENRESPONSES_DUMP_REQUEST".into(), "true".into()));
+            env.push(("RIP_OPENRESPONSES_DUMP_REQUEST_MAX_BYTES".into(), "37".into()));
+        }
+    }
+    Planted { files, env, request_endpoint, expect_source, expect_headers, doctor_has_openresponses: doctor_has, sent_header }
+}
+
+fn count_frames(res: &mut CaseResult, body: &[u8]) {
+    for line in String::from_utf8_lossy(body).lines() {
+        if let Some(d) = line.strip_prefix("data:") {
+            if let Ok(v) = serde_json::from_str::<Value>(d.trim()) {
+                if let Some(t) = v.get("type").and_then(|x| x.as_str()) {
+                    res.frames += 1;
+                    *res.frame_types.entry(t.to_string()).or_insert(0) += 1;
+                    if t == "openresponses_request" {
+                        res.dump_frames += 1;
+                    }
+                    if t == "provider_event"
+                        && v.get("raw").map(|x| x.is_string()).unwrap_or(false)
+                        && v.get("errors").and_then(|x| x.as_array()).map(|a| !a.is_empty()).unwrap_or(false)
+                        && v.get("event_name").map(|x| x.is_null()).unwrap_or(true)
+                    {
+                        res.invalid_request_frames += 1;
+                    }
+                    if t == "tool_ended" && v.get("exit_code").and_then(|x| x.as_i64()).unwrap_or(0) != 0 {
+                        res.tool_failures += 1;
+                    }
+                }
+            }
+        }
+    }
+}
+
+fn run_case(spec: &Spec, bin: &Path) -> CaseResult {
+    if spec.cli_spawn {
+        return run_cli_spawn_case(spec, bin);
+    }
+    let t0 = Instant::now();
+    let mut res = CaseResult {
+        idx: spec.idx,
+        shape: spec.shape(),
+        supply: spec.supply.name(),
+        outcome: spec.outcome.name(),
+        echo_auth: spec.echo_auth,
+        ..Default::default()
+    };
+    let mut rng = Rng::new(spec.seed);
+    let n = NEXT_CASE_DIR.fetch_add(1, Ordering::Relaxed);
+    let base = scratch_root().join(format!("c19-{n}"));
+    let _ = std::fs::remove_dir_all(&base);
+    let cfg_home = base.join("config-home");
+    let data = base.join("data");
+    let ws = base.join("ws");
+    let custom = base.join("elsewhere");
+    for d in [&cfg_home, &data, &ws, &custom] {
+        let _ = std::fs::create_dir_all(d);
+    }
+    // .git marks the project root so that config discovery stops at the workspace
+    let _ = std::fs::create_dir_all(ws.join(".git"));
+    // env values and headers can carry any byte; keep the awkward tail for those supply paths
+    let awkward = !matches!(spec.supply, Supply::HeadersSecret) && rng.bool();
+    let key = Canary::new("key", &mut rng, awkward);
+    let decoy = Canary::new("decoy", &mut rng, false);
+    let header = Canary::new("hdr", &mut rng, false);
+    let canaries = vec![key.clone(), decoy.clone(), header.clone()];
+
+    let provider = if spec.outcome == Outcome::Refused && !spec.echo_auth {
+        None
+    } else {
+        Some(Provider::start(provider_script(spec.outcome, spec.echo_auth)))
+    };
+    let marker = match spec.supply {
+        Supply::EnvOpenAi => "/openai.com",
+        Supply::EnvOpenRouter => "/openrouter.ai/api",
+        _ => "",
+    };
+    let endpoint = match &provider {
+        Some(p) => format!("http://{}{marker}/v1/responses", p.addr),
+        None => format!("http://127.0.0.1:1{marker}/v1/responses"),
+    };
+    let planted = plant(spec, &endpoint, &cfg_home, &ws, &custom, &key, &decoy, &header);
+
+    let mut cmd = Command::new(bin);
+    cmd.arg("serve")
+        .env("RIP_SERVER_ADDR", "127.0.0.1:0")
+        .env("RIP_DATA_DIR", &data)
+        .env("RIP_WORKSPACE_ROOT", &ws)
+        .env("RIP_CONFIG_HOME", &cfg_home)
+        .env_remove("RIP_VERIF_DELAY")
+        .env_remove("RIP_VERIF_ABORT")
+        .current_dir(&ws);
+    for (k, v) in &planted.env {
+        cmd.env(k, v);
+    }
+    let mut auth = match Proc::spawn(cmd) {
+        Ok(p) => p,
+        Err(e) => {
+            res.inconclusive = Some(format!("cannot spawn {}: {e}", bin.display()));
+            let _ = std::fs::remove_dir_all(&base);
+            return res;
+        }
+    };
+    let started = Instant::now();
+    while auth.listening().is_none() && auth.alive() && started.elapsed() < Duration::from_secs(8) {
+        std::thread::sleep(Duration::from_millis(3));
+    }
+    let Some(server) = auth.listening() else {
+        res.inconclusive = Some(format!("rip serve did not start: {}", auth.stderr_text().chars().take(300).collect::<String>()));
+        auth.finish();
+        let _ = std::fs::remove_dir_all(&base);
+        return res;
+    };
+    let addr = crate::c18::host_port(&server);
+    let mut sc = Scanner { canaries: &canaries, leaks: Vec::new(), bytes: 0, items: 0 };
+    let mut http_n = 0u64;
+    let mut scan_resp = |sc: &mut Scanner, what: &str, r: &HttpResp| {
+        sc.scan(&format!("http:{what}"), &r.raw);
+        sc.scan(&format!("http:{what}"), &r.body);
+        http_n += 1;
+    };
+    let t_short = Duration::from_secs(4);
+
+    // ---- the run
+    let mut overrides = serde_json::Map::new();
+    if let Some(e) = &planted.request_endpoint {
+        overrides.insert("endpoint".into(), json!(e));
+        overrides.insert("model".into(), json!("m1"));
+    }
+    match spec.overrides {
+        1 => {
+            overrides.insert("model".into(), json!("m-override"));
+            overrides.insert("parallel_tool_calls".into(), json!(true));
+        }
+        2 => {
+            overrides.insert("stateless_history".into(), json!(true));
+            overrides.insert("followup_user_message".into(), json!("please continue"));
+        }
+        _ => {}
+    }
+    let prompt = format!("case {} please use a tool", spec.idx);
+    let mut session_id: Option<String> = None;
+    let mut thread_id: Option<String> = None;
+    let mut start_trouble = String::new();
+    if spec.session_entry {
+        if let Some((st, v, r)) = http_json(&addr, "POST", "/sessions", None, t_short) {
+            scan_resp(&mut sc, "POST /sessions", &r);
+            if st == 201 {
+                session_id = v.get("session_id").and_then(|x| x.as_str()).map(|s| s.to_string());
+            } else {
+                start_trouble = format!("POST /sessions -> {st}");
+            }
+        } else {
+            start_trouble = "POST /sessions: no answer".into();
+        }
+        if let Some(sid) = &session_id {
+            if let Some((_, _, r)) = http_json(&addr, "POST", &format!("/sessions/{sid}/input"), Some(&json!({"input": prompt})), t_short) {
+                scan_resp(&mut sc, "POST /sessions/{id}/input", &r);
+            }
+        }
+    } else {
+        if let Some((_, v, r)) = http_json(&addr, "POST", "/threads/ensure", None, t_short) {
+            scan_resp(&mut sc, "POST /threads/ensure", &r);
+            thread_id = v.get("thread_id").and_then(|x| x.as_str()).map(|s| s.to_string());
+            if thread_id.is_none() {
+                start_trouble = format!("POST /threads/ensure -> {} {}", r.status, String::from_utf8_lossy(&r.body).chars().take(120).collect::<String>());
+            }
+        } else {
+            start_trouble = "POST /threads/ensure: no answer".into();
+        }
+        if let Some(tid) = &thread_id {
+            let mut body = json!({"content": prompt, "actor_id": "user", "origin": "rv"});
+            if !overrides.is_empty() {
+                body["openresponses"] = Value::Object(overrides.clone());
+            }
+            if let Some((st, v, r)) = http_json(&addr, "POST", &format!("/threads/{tid}/messages"), Some(&body), t_short) {
+                scan_resp(&mut sc, "POST /threads/{id}/messages", &r);
+                if st == 202 {
+                    session_id = v.get("session_id").and_then(|x| x.as_str()).map(|s| s.to_string());
+                } else {
+                    start_trouble = format!("POST /threads/{{id}}/messages -> {st}");
+                }
+            } else {
+                start_trouble = "POST /threads/{id}/messages: no answer".into();
+            }
+        }
+    }
+    let Some(sid) = session_id else {
+        res.inconclusive = Some(format!("could not start a run over HTTP ({start_trouble}); authority stderr: {}", auth.stderr_text().chars().take(200).collect::<String>()));
+        auth.finish();
+        let _ = std::fs::remove_dir_all(&base);
+        return res;
+    };
+    let ended = |b: &[u8]| find(b, b"\"type\":\"session_ended\"").is_some();
+    let mut run_ended = false;
+    if let Some(r) = http_exchange(&addr, "GET", &format!("/sessions/{sid}/events"), None, Duration::from_secs(20), Some(&ended)) {
+        run_ended = ended(&r.raw);
+        count_frames(&mut res, &r.body);
+        scan_resp(&mut sc, "GET /sessions/{id}/events (SSE)", &r);
+    }
+    if !run_ended {
+        res.inconclusive = Some("run did not end within the watchdog".to_string());
+    }
+    std::thread::sleep(Duration::from_millis(40)); // trailing continuity frames
+
+    // ---- the CLI (its output is scanned)
+    let mut cli_outputs: Vec<(String, Vec<u8>)> = Vec::new();
+    let mut run_cli = |args: &[&str], local: bool, what: &str| {
+        let mut c = Command::new(bin);
+        c.args(args)
+            .env("RIP_CONFIG_HOME", &cfg_home)
+            .env_remove("RIP_VERIF_DELAY")
+            .env_remove("RIP_VERIF_ABORT")
+            .current_dir(&ws);
+        if local {
+            c.env("RIP_DATA_DIR", &data).env("RIP_WORKSPACE_ROOT", &ws);
+            // the same environment the user had when the authority was started
+            for (k, v) in &planted.env {
+                c.env(k, v);
+            }
+        }
+        if let Ok(mut p) = Proc::spawn(c) {
+            let code = p.wait_exit(Duration::from_secs(25));
+            p.finish();
+            cli_outputs.push((format!("cli:{what}:stdout"), p.out.lock().unwrap().clone()));
+            cli_outputs.push((format!("cli:{what}:stderr"), p.err.lock().unwrap().clone()));
+            return code;
+        }
+        None
+    };
+    let code = if spec.cli_local {
+        run_cli(&["config", "doctor"], true, "rip config doctor (attached through the store)")
+    } else {
+        run_cli(&["config", "--server", &server, "doctor"], false, "rip config --server doctor")
+    };
+    res.cli_runs += 1;
+    res.cli_exit_zero += (code == Some(0)) as u64;
+    if code != Some(0) {
+        res.cli_nonzero.push(format!("config doctor{} exit {code:?}", if spec.cli_local { " (attached)" } else { " --server" }));
+    }
+    if spec.cli_run {
+        let view = ["raw", "output", "metrics"][rng.usize(3)];
+        let code = if spec.cli_local {
+            run_cli(&["run", "second prompt through the cli", "--view", view], true, "rip run (attached through the store)")
+        } else {
+            run_cli(&["run", "second prompt through the cli", "--server", &server, "--view", view], false, "rip run --server")
+        };
+        res.cli_runs += 1;
+        res.cli_exit_zero += (code == Some(0)) as u64;
+        if code != Some(0) {
+            res.cli_nonzero.push(format!("run{} exit {code:?}", if spec.cli_local { " (attached)" } else { " --server" }));
+        }
+    }
+
+    // ---- diagnostics and read surfaces
+    if let Some((st, v, r)) = http_json(&addr, "GET", "/config/doctor", None, t_short) {
+        scan_resp(&mut sc, "GET /config/doctor", &r);
+        res.doctor = v.clone();
+        if st == 200 {
+            res.doctor_checked = true;
+            let or = v.get("openresponses");
+            if planted.doctor_has_openresponses {
+                match or {
+                    None | Some(Value::Null) => res.doctor_problems.push(("no_openresponses_section".into(), "doctor has no openresponses section although a provider is configured".into())),
+                    Some(o) => {
+                        if o.get("has_api_key").and_then(|x| x.as_bool()) != Some(true) {
+                            res.doctor_problems.push(("has_api_key_not_true".into(), format!("has_api_key = {:?}", o.get("has_api_key"))));
+                        }
+                        let src = o.get("api_key_source").and_then(|x| x.as_str()).map(|s| s.to_string());
+                        if src != planted.expect_source {
+                            res.doctor_problems.push(("wrong_api_key_source".into(), format!("api_key_source = {src:?}, expected {:?}", planted.expect_source)));
+                        }
+                        let names: Vec<String> = o
+                            .get("headers")
+                            .and_then(|x| x.as_array())
+                            .map(|a| a.iter().filter_map(|x| x.as_str().map(|s| s.to_string())).collect())
+                            .unwrap_or_default();
+                        let mut sorted = names.clone();
+                        sorted.sort();
+                        if sorted != planted.expect_headers {
+                            res.doctor_problems.push(("header_list_not_names_only".into(), format!("headers = {names:?}, expected the names {:?}", planted.expect_headers)));
+                        }
+                    }
+                }
+            }
+        }
+    }
+    for (m, p, b) in [
+        ("GET", "/threads".to_string(), None),
+        ("GET", "/tasks".to_string(), None),
+    ] {
+        if let Some((_, _, r)) = http_json(&addr, m, &p, b, t_short) {
+            scan_resp(&mut sc, &format!("{m} {p}"), &r);
+        }
+    }
+    if thread_id.is_none() {
+        // the default thread also exists for session runs started by the CLI
+        if let Some((_, v, _)) = http_json(&addr, "POST", "/threads/ensure", None, t_short) {
+            thread_id = v.get("thread_id").and_then(|x| x.as_str()).map(|s| s.to_string());
+        }
+    }
+    if let Some(tid) = &thread_id {
+        if let Some((_, _, r)) = http_json(&addr, "GET", &format!("/threads/{tid}"), None, t_short) {
+            scan_resp(&mut sc, "GET /threads/{id}", &r);
+        }
+        for ep in ["compaction-status", "provider-cursor-status", "context-selection-status", "compaction-cut-points"] {
+            if let Some((_, _, r)) = http_json(&addr, "POST", &format!("/threads/{tid}/{ep}"), Some(&json!({})), t_short) {
+                scan_resp(&mut sc, &format!("POST /threads/{{id}}/{ep}"), &r);
+            }
+        }
+        if let Some(r) = http_exchange(&addr, "GET", &format!("/threads/{tid}/events"), None, Duration::from_millis(350), None) {
+            count_frames(&mut res, &r.body);
+            scan_resp(&mut sc, "GET /threads/{id}/events (SSE)", &r);
+        }
+    }
+    // replay of the finished session stream
+    if let Some(r) = http_exchange(&addr, "GET", &format!("/sessions/{sid}/events"), None, Duration::from_millis(250), None) {
+        scan_resp(&mut sc, "GET /sessions/{id}/events (SSE replay)", &r);
+    }
+
+    // ---- stop the authority
+    kill_pid(auth.pid, libc::SIGTERM);
+    res.exit_after_sigterm = auth.wait_exit(Duration::from_secs(4));
+    auth.finish();
+    sc.scan("authority:stdout", &auth.out.lock().unwrap().clone());
+    sc.scan("authority:stderr", &auth.err.lock().unwrap().clone());
+    for (what, bytes) in &cli_outputs {
+        sc.scan(what, bytes);
+    }
+
+    // ---- every file that exists now, except the config files we planted ourselves
+    let mut files = 0u64;
+    {
+        let planted_files = &planted.files;
+        let mut visit = |p: &Path| {
+            if planted_files.iter().any(|f| f == p) {
+                return;
+            }
+            let rel = p.strip_prefix(&base).unwrap_or(p).to_string_lossy().to_string();
+            if let Ok(bytes) = std::fs::read(p) {
+                files += 1;
+                sc.scan(&format!("file:{}", sink_class(&rel)), &bytes);
+            }
+        };
+        walk(&base, &mut visit);
+    }
+    res.files_scanned = files;
+
+    // ---- was the secret really in use?
+    if let Some(p) = &provider {
+        let reqs = p.requests();
+        res.provider_requests = reqs.len() as u64;
+        let (hname, hval) = &planted.sent_header;
+        let got = reqs.iter().any(|r| r.header(hname) == Some(hval.as_str()));
+        let key_too = reqs.iter().any(|r| r.header("authorization") == Some(format!("Bearer {}", key.value).as_str()));
+        res.sent = Some(got && key_too);
+        // the scanner must find the canary where it legitimately is
+        let mut probe = Scanner { canaries: &canaries, leaks: Vec::new(), bytes: 0, items: 0 };
+        for r in &reqs {
+            for (_, v) in &r.headers {
+                probe.scan("probe", v.as_bytes());
+            }
+        }
+        res.scanner_selfcheck = !probe.leaks.is_empty();
+        // decoys must never be sent anywhere
+        if reqs.iter().any(|r| r.headers.iter().any(|(_, v)| v.contains(&decoy.value))) {
+            res.doctor_problems.push(("decoy_key_sent_to_provider".into(), "a key that the configuration does not select was sent to the provider".into()));
+        }
+    } else {
+        res.sent = None;
+        let mut probe = Scanner { canaries: &canaries, leaks: Vec::new(), bytes: 0, items: 0 };
+        probe.scan("probe", format!("Authorization: Bearer {}", key.value).as_bytes());
+        res.scanner_selfcheck = !probe.leaks.is_empty();
+    }
+    res.outcome_reached = match spec.outcome {
+        Outcome::SuccessTool => res.frame_types.contains_key("tool_ended") && ws.join("out.txt").exists(),
+        Outcome::ToolFailure => res.tool_failures > 0 || res.frame_types.contains_key("tool_failed"),
+        Outcome::InvalidRequest => res.invalid_request_frames > 0,
+        _ => res.frame_types.contains_key("provider_event") || res.frame_types.contains_key("session_ended"),
+    };
+    res.leaks = sc.leaks;
+    res.bytes_scanned = sc.bytes;
+    res.items_scanned = sc.items;
+    res.http_responses = http_n;
+    if spec.echo_auth {
+        res.echo_auth_persisted = !res.leaks.is_empty();
+    }
+    drop(provider);
+    let _ = std::fs::remove_dir_all(&base);
+    res.wall_ms = t0.elapsed().as_millis() as u64;
+    res
+}
+
+// ---------------------------------------------------------------------------------------------
+
+/// `rip run --provider openai|openrouter` without a server: the CLI copies the provider key into
+/// RIP_OPENRESPONSES_API_KEY and spawns the authority itself (output goes to authority.log). Offline the
+/// run ends in a transport error; the doctor stands in for "the key was in use".
+fn run_cli_spawn_case(spec: &Spec, bin: &Path) -> CaseResult {
+    let t0 = Instant::now();
+    let mut res = CaseResult {
+        idx: spec.idx,
+        shape: spec.shape(),
+        supply: "cli_provider_flag_spawns_authority",
+        outcome: "transport_error_offline",
+        ..Default::default()
+    };
+    let mut rng = Rng::new(spec.seed);
+    let n = NEXT_CASE_DIR.fetch_add(1, Ordering::Relaxed);
+    let base = scratch_root().join(format!("c19-{n}"));
+    let _ = std::fs::remove_dir_all(&base);
+    let cfg_home = base.join("config-home");
+    let data = base.join("data");
+    let ws = base.join("ws");
+    for d in [&cfg_home, &data, &ws] {
+        let _ = std::fs::create_dir_all(d);
+    }
+    let _ = std::fs::create_dir_all(ws.join(".git"));
+    let awkward = rng.bool();
+    let key = Canary::new("key", &mut rng, awkward);
+    let decoy = Canary::new("decoy", &mut rng, false);
+    let canaries = vec![key.clone(), decoy.clone()];
+    let openrouter = rng.bool();
+    let mut env: Vec<(String, String)> = vec![
+        ("RIP_DATA_DIR".into(), data.display().to_string()),
+        ("RIP_WORKSPACE_ROOT".into(), ws.display().to_string()),
+        ("RIP_CONFIG_HOME".into(), cfg_home.display().to_string()),
+    ];
+    if openrouter {
+        env.push(("OPENROUTER_API_KEY".into(), key.value.clone()));
+        env.push(("OPENAI_API_KEY".into(), decoy.value.clone()));
+    } else {
+        env.push(("OPENAI_API_KEY".into(), key.value.clone()));
+        env.push(("OPENROUTER_API_KEY".into(), decoy.value.clone()));
+    }
+    match spec.dump {
+        Dump::Off => {}
+        Dump::On => env.push(("RIP_OPENRESPONSES_DUMP_REQUEST".into(), "1".into())),
+        Dump::OnTiny => {
+            env.push(("RIP_OPENRESPONSES_DUMP_REQUEST".into(), "1".into()));
+            env.push(("RIP_OPENRESPONSES_DUMP_REQUEST_MAX_BYTES".into(), "37".into()));
+        }
+    }
+    let mut sc = Scanner { canaries: &canaries, leaks: Vec::new(), bytes: 0, items: 0 };
+    let mut groups: Vec<u32> = Vec::new();
+    let mut run_cli = |args: &[&str], sc: &mut Scanner, what: &str| -> Option<i32> {
+        use std::os::unix::process::CommandExt;
+        let mut c = Command::new(bin);
+        c.args(args).env_remove("RIP_VERIF_DELAY").env_remove("RIP_VERIF_ABORT").current_dir(&ws).process_group(0);
+        for (k, v) in &env {
+            c.env(k, v);
+        }
+        let mut p = Proc::spawn(c).ok()?;
+        groups.push(p.pid);
+        let code = p.wait_exit(Duration::from_secs(30));
+        p.finish();
+        let out = p.out.lock().unwrap().clone();
+        if what.contains("run") {
+            for line in String::from_utf8_lossy(&out).lines() {
+                if let Ok(v) = serde_json::from_str::<Value>(line) {
+                    if let Some(t) = v.get("type").and_then(|x| x.as_str()) {
+                        res.frames += 1;
+                        *res.frame_types.entry(t.to_string()).or_insert(0) += 1;
+                    }
+                }
+            }
+        }
+        sc.scan(&format!("cli:{what}:stdout"), &out);
+        sc.scan(&format!("cli:{what}:stderr"), &p.err.lock().unwrap().clone());
+        code
+    };
+    let provider = if openrouter { "openrouter" } else { "openai" };
+    let code = run_cli(&["run", "hello through the cli", "--provider", provider, "--model", "rv-model", "--view", "raw"], &mut sc, "rip run --provider");
+    let mut cli_runs = 1;
+    let mut cli_zero = (code == Some(0)) as u64;
+    let meta: Option<Value> = std::fs::read(data.join("authority").join("meta.json")).ok().and_then(|b| serde_json::from_slice(&b).ok());
+    let server = meta.as_ref().and_then(|m| m.get("endpoint")).and_then(|x| x.as_str()).map(|s| s.to_string());
+    let auth_pid = meta.as_ref().and_then(|m| m.get("pid")).and_then(|x| x.as_u64()).map(|p| p as u32);
+    let (Some(server), Some(auth_pid)) = (server, auth_pid) else {
+        res.inconclusive = Some(format!("`rip run --provider` did not leave a running authority (exit {code:?})"));
+        for g in &groups {
+            crate::c18::kill_group(*g, libc::SIGKILL);
+        }
+        let _ = std::fs::remove_dir_all(&base);
+        return res;
+    };
+    let addr = crate::c18::host_port(&server);
+    let t_short = Duration::from_secs(4);
+    let mut http_n = 0u64;
+    if let Some((st, v, r)) = http_json(&addr, "GET", "/config/doctor", None, t_short) {
+        sc.scan("http:GET /config/doctor", &r.raw);
+        http_n += 1;
+        res.doctor = v.clone();
+        if st == 200 {
+            res.doctor_checked = true;
+            let o = v.get("openresponses").cloned().unwrap_or(Value::Null);
+            if o.get("has_api_key").and_then(|x| x.as_bool()) != Some(true) {
+                res.doctor_problems.push(("has_api_key_not_true".into(), format!("has_api_key = {:?}", o.get("has_api_key"))));
+            }
+            let src = o.get("api_key_source").and_then(|x| x.as_str()).unwrap_or("");
+            if src != "env:RIP_OPENRESPONSES_API_KEY" {
+                res.doctor_problems.push(("wrong_api_key_source".into(), format!("api_key_source = {src:?}, expected env:RIP_OPENRESPONSES_API_KEY (set by the CLI)")));
+            }
+        }
+    }
+    let code2 = run_cli(&["config", "doctor"], &mut sc, "rip config doctor (attached through the store)");
+    cli_runs += 1;
+    cli_zero += (code2 == Some(0)) as u64;
+    let mut thread_id = None;
+    if let Some((_, v, r)) = http_json(&addr, "POST", "/threads/ensure", None, t_short) {
+        sc.scan("http:POST /threads/ensure", &r.raw);
+        http_n += 1;
+        thread_id = v.get("thread_id").and_then(|x| x.as_str()).map(|s| s.to_string());
+    }
+    if let Some(tid) = &thread_id {
+        for ep in ["compaction-status", "provider-cursor-status", "context-selection-status"] {
+            if let Some((_, _, r)) = http_json(&addr, "POST", &format!("/threads/{tid}/{ep}"), Some(&json!({})), t_short) {
+                sc.scan(&format!("http:POST /threads/{{id}}/{ep}"), &r.raw);
+                http_n += 1;
+            }
+        }
+        if let Some(r) = http_exchange(&addr, "GET", &format!("/threads/{tid}/events"), None, Duration::from_millis(350), None) {
+            sc.scan("http:GET /threads/{id}/events (SSE)", &r.raw);
+            sc.scan("http:GET /threads/{id}/events (SSE)", &r.body);
+            http_n += 1;
+        }
+    }
+    kill_pid(auth_pid, libc::SIGTERM);
+    let t1 = Instant::now();
+    while ripd::authority_lock_path(&data).exists() && t1.elapsed() < Duration::from_secs(4) {
+        std::thread::sleep(Duration::from_millis(5));
+    }
+    res.exit_after_sigterm = (!ripd::authority_lock_path(&data).exists()).then_some(0);
+    for g in &groups {
+        crate::c18::kill_group(*g, libc::SIGKILL);
+    }
+    let mut files = 0u64;
+    {
+        let mut visit = |p: &Path| {
+            let rel = p.strip_prefix(&base).unwrap_or(p).to_string_lossy().to_string();
+            if let Ok(bytes) = std::fs::read(p) {
+                files += 1;
+                sc.scan(&format!("file:{}", sink_class(&rel)), &bytes);
+            }
+        };
+        walk(&base, &mut visit);
+    }
+    res.files_scanned = files;
+    res.sent = None;
+    let mut probe = Scanner { canaries: &canaries, leaks: Vec::new(), bytes: 0, items: 0 };
+    probe.scan("probe", format!("Authorization: Bearer {}", key.value).as_bytes());
+    res.scanner_selfcheck = !probe.leaks.is_empty();
+    res.outcome_reached = res.frame_types.contains_key("provider_event") && res.frame_types.contains_key("session_ended");
+    res.leaks = sc.leaks;
+    res.bytes_scanned = sc.bytes;
+    res.items_scanned = sc.items;
+    res.http_responses = http_n;
+    res.cli_runs = cli_runs;
+    res.cli_exit_zero = cli_zero;
+    let _ = std::fs::remove_dir_all(&base);
+    res.wall_ms = t0.elapsed().as_millis() as u64;
+    res
+}
+
+fn spec_for(cfg: &Cfg, i: u64) -> Spec {
+    let mut rng = cfg.case_rng(i);
+    let s = SUPPLIES.len() as u64;
+    let o = OUTCOMES.len() as u64;
+    let supply = SUPPLIES[(i % s) as usize];
+    // walk the (supply × outcome) matrix diagonally so that a short run already sees every outcome
+    let outcome = OUTCOMES[((i / s + i % s) % o) as usize];
+    let dump = match rng.below(5) {
+        0 | 1 => Dump::Off,
+        2 | 3 => Dump::On,
+        _ => Dump::OnTiny,
+    };
+    let session_entry = matches!(spec_supply_allows_session(supply), true) && rng.chance(1, 3);
+    Spec {
+        idx: i,
+        supply,
+        outcome,
+        dump,
+        overrides: if session_entry { 0 } else { rng.below(3) as u8 },
+        session_entry,
+        cli_run: rng.chance(1, 3),
+        cli_local: rng.chance(1, 3),
+        echo_auth: false,
+        cli_spawn: i % 20 == 19,
+        seed: rng.next_u64(),
+    }
+}
+
+fn spec_supply_allows_session(s: Supply) -> bool {
+    // the engine-level default provider only knows RIP_OPENRESPONSES_ENDPOINT / _API_KEY
+    matches!(s, Supply::EnvRipKey | Supply::InvalidGlobalPlusEnv)
+}
+
+fn judge(r: &mut Report, spec: &Spec, res: &CaseResult) {
+    if res.echo_auth {
+        // informational: a provider that quotes the Authorization header back. Outside the quantifier of
+        // the property (outcomes echo the request *body*); recorded, not judged.
+        r.note(
+            "info_provider_quoting_authorization_header_in_401_body",
+            json!({"persisted_by_rip": res.echo_auth_persisted,
+                   "sinks": res.leaks.iter().map(|l| l.sink.clone()).collect::<std::collections::BTreeSet<_>>()}),
+        );
+        r.count("info_cases_provider_quotes_auth_header", 1);
+        return;
+    }
+    if let Some(why) = &res.inconclusive {
+        r.inconclusive(&format!("case {} ({}): {why}", res.idx, res.shape));
+        if res.leaks.is_empty() {
+            return;
+        }
+    }
+    if !res.scanner_selfcheck {
+        r.inconclusive(&format!("case {}: scanner self-check failed (canary not found where it was sent)", res.idx));
+        return;
+    }
+    let witness = |extra: Value| {
+        json!({"case": res.idx, "spec": format!("{spec:?}"), "shape": res.shape, "provider_requests": res.provider_requests,
+               "secret_seen_by_provider": res.sent, "doctor": res.doctor, "frame_types": res.frame_types, "detail": extra})
+    };
+    // a leak is a leak whether or not the provider saw the key
+    let mut by_sink: BTreeMap<String, Vec<&Leak>> = BTreeMap::new();
+    for l in &res.leaks {
+        by_sink.entry(l.sink.clone()).or_default().push(l);
+    }
+    for (sink, ls) in &by_sink {
+        let l = ls[0];
+        r.violation(
+            &format!("C19/secret_in/{sink}/{}/{}", res.supply, res.outcome),
+            &format!(
+                "the {} canary ({} form) supplied via {} appears in {sink} after outcome {}: …{}…",
+                l.canary, l.encoding, res.supply, res.outcome, l.excerpt
+            ),
+            witness(json!(ls.iter().map(|l| json!({"sink": l.sink, "canary": l.canary, "encoding": l.encoding, "excerpt": l.excerpt})).collect::<Vec<_>>())),
+        );
+    }
+    for (kind, detail) in &res.doctor_problems {
+        r.violation(
+            &format!("C19/doctor/{kind}/{}", res.supply),
+            &format!("config doctor for supply path {}: {detail}", res.supply),
+            witness(json!(detail)),
+        );
+    }
+    match res.sent {
+        Some(true) => {
+            r.eval();
+            r.distinct_str(&res.shape);
+            r.count("cases_secret_seen_by_provider", 1);
+        }
+        Some(false) => {
+            r.inconclusive(&format!(
+                "case {} ({}): the provider never received the canary ({} requests) — the case proves nothing",
+                res.idx, res.shape, res.provider_requests
+            ));
+            return;
+        }
+        None => {
+            // connection refused: nothing can observe the header; the doctor check stands in
+            if res.doctor_checked {
+                r.eval();
+                r.distinct_str(&res.shape);
+                r.count("cases_connection_refused_secret_use_shown_by_doctor_only", 1);
+            } else {
+                r.inconclusive(&format!("case {}: refused outcome without a doctor answer", res.idx));
+                return;
+            }
+        }
+    }
+    r.count(&format!("outcome_{}", res.outcome), 1);
+    r.count(&format!("outcome_{}_reached_as_intended", res.outcome), res.outcome_reached as u64);
+    r.count(&format!("supply_{}", res.supply), 1);
+    r.count("provider_requests_recorded", res.provider_requests);
+    r.count("frames_read_over_sse", res.frames);
+    r.count("request_dump_frames_seen", res.dump_frames);
+    r.count("bytes_scanned", res.bytes_scanned);
+    r.count("byte_strings_scanned", res.items_scanned);
+    r.count("files_scanned", res.files_scanned);
+    r.count("http_and_sse_responses_scanned", res.http_responses);
+    r.count("cli_invocations_scanned", res.cli_runs);
+    r.count("cli_invocations_exit_zero", res.cli_exit_zero);
+    for w in &res.cli_nonzero {
+        r.count(&format!("cli_nonzero: {w}"), 1);
+    }
+    r.count("doctor_answers_checked", res.doctor_checked as u64);
+    r.count("authority_exited_cleanly_on_sigterm", (res.exit_after_sigterm == Some(0)) as u64);
+    r.sample(json!({
+        "case": res.idx, "shape": res.shape, "secret_seen_by_provider": res.sent, "provider_requests": res.provider_requests,
+        "frames": res.frames, "frame_types": res.frame_types, "files_scanned": res.files_scanned, "bytes_scanned": res.bytes_scanned,
+        "doctor": res.doctor.get("openresponses"), "outcome_reached": res.outcome_reached, "wall_ms": res.wall_ms,
+    }));
+}
 
 pub fn run(cfg: &Cfg) -> i32 {
-    let mut r = Report::new("C19", "exploration", "not built");
-    r.fatal_inconclusive("monitor not built yet");
+    let mut r = Report::new(
+        "C19",
+        "exploration",
+        "configurations = (14 secret supply paths) × (7 run outcomes) walked as a matrix, × seeded {request dump off / on / on with \
+         37-byte cap, per-request overrides none / model+flags / follow-up+stateless, thread or session entry, CLI doctor via \
+         --server or attached through the store, optional second run through `rip run`}; each is a fresh real `rip serve` with \
+         isolated config home, data dir and workspace against a recording scripted provider. Non-trivial = the provider \
+         received the canary (or, for connection refused, the doctor reports the key); distinct = distinct configuration shapes",
+    );
+    r.assume("the canary search covers raw, JSON-escaped (1× and 2×), percent-encoded, hex and base64/base64url (3 alignments) forms; other transformations (compression, encryption, splitting) are not detected");
+    r.assume("tool commands that print the authority's own environment or read the planted config files are excluded (no such tool call is scripted)");
+    r.assume("the planted config files themselves are excluded from the scan by exact path");
+    let bin = rip_bin();
+    r.note("rip_binary", json!(bin.display().to_string()));
+    if !bin.exists() {
+        r.fatal_inconclusive(&format!("real binary {} not found (set RV_RIP_BIN or run lib/build.sh --with-rip)", bin.display()));
+        return r.finish(cfg);
+    }
+
+    if let Some(path) = &cfg.replay {
+        let doc: Value = std::fs::read(path).ok().and_then(|b| serde_json::from_slice(&b).ok()).unwrap_or(Value::Null);
+        let idx = doc.pointer("/witness/case").and_then(|x| x.as_u64()).unwrap_or(0);
+        let spec = spec_for(cfg, idx);
+        let res = run_case(&spec, &bin);
+        judge(&mut r, &spec, &res);
+        return r.finish(cfg);
+    }
+
+    let matrix = (SUPPLIES.len() * OUTCOMES.len()) as u64;
+    let max_cases = cfg.tier.pick(matrix * 2, matrix * 60);
+    let workers = cfg.tier.pick(6usize, 10usize);
+    let next = Arc::new(AtomicU64::new(0));
+    let stop = Arc::new(std::sync::atomic::AtomicBool::new(false));
+    let (tx, rx) = mpsc::channel::<(Spec, CaseResult)>();
+    let extra_done = Arc::new(Mutex::new(false));
+    let mut handles = Vec::new();
+    for _ in 0..workers {
+        let next = next.clone();
+        let stop = stop.clone();
+        let tx = tx.clone();
+        let cfg = cfg.clone();
+        let bin = bin.clone();
+        let extra_done = extra_done.clone();
+        handles.push(std::thread::spawn(move || loop {
+            if stop.load(Ordering::Relaxed) {
+                break;
+            }
+            // the informational header-echo case runs once
+            let do_extra = {
+                let mut g = extra_done.lock().unwrap();
+                if !*g && cfg.mine(0) {
+                    *g = true;
+                    true
+                } else {
+                    false
+                }
+            };
+            if do_extra {
+                let mut spec = spec_for(&cfg, 0);
+                spec.outcome = Outcome::Http401Echo;
+                spec.echo_auth = true;
+                spec.cli_run = false;
+                let res = run_case(&spec, &bin);
+                let _ = tx.send((spec, res));
+                continue;
+            }
+            let i = next.fetch_add(1, Ordering::SeqCst);
+            if i >= max_cases {
+                break;
+            }
+            if !cfg.mine(i) {
+                continue;
+            }
+            let spec = spec_for(&cfg, i);
+            let res = run_case(&spec, &bin);
+            if tx.send((spec, res)).is_err() {
+                break;
+            }
+        }));
+    }
+    drop(tx);
+    loop {
+        match rx.recv_timeout(Duration::from_millis(200)) {
+            Ok((spec, res)) => judge(&mut r, &spec, &res),
+            Err(mpsc::RecvTimeoutError::Timeout) => {}
+            Err(mpsc::RecvTimeoutError::Disconnected) => break,
+        }
+        if r.elapsed() > cfg.budget_s * 0.85 {
+            stop.store(true, Ordering::Relaxed);
+        }
+    }
+    for h in handles {
+        let _ = h.join();
+    }
     r.finish(cfg)
 }
